@@ -26,9 +26,27 @@ func init() {
 		sl("btree.Contains", "containsFoundStmts", "for[0]/if[0].body"),
 		// non-full leaf insertion (only used by the negative witness: a Put of an absent key races)
 		sl("btree.insertIntoLeaf", "insertIntoLeafStmts", ""),
-		// the iterator step: lost() check, value read, cursor move
+		// a whole Range / RangeReverse / Iterate reader: the seek, then per Next the done check, the lost()
+		// check, the in-range test on the key, the value read, the cursor move
 		sl("forwardIterator.Next", "fwdNextStmts", ""),
+		sl("backwardIterator.Next", "bwdNextStmts", ""),
 		sl("cursor.lost", "lostStmts", ""),
 		sl("cursor.valueUnchecked", "valueUncheckedStmts", ""),
+		sl("cursor.Key", "cursorKeyStmts", ""),
+		sl("cursor.Next", "cursorNextStmts", ""),
+		sl("cursor.Prev", "cursorPrevStmts", ""),
+		sl("cursor.seek", "seekStmts", ""),
+		sl("cursor.find", "findStmts", ""),
+		sl("cursor.SeekFirst", "seekFirstStmts", ""),
+		sl("cursor.SeekLast", "seekLastStmts", ""),
+		sl("cursor.SeekFirstGreaterOrEqual", "seekGEStmts", ""),
+		sl("cursor.SeekFirstGreater", "seekGTStmts", ""),
+		sl("cursor.SeekLastLessOrEqual", "seekLEStmts", ""),
+		sl("cursor.SeekLastLess", "seekLTStmts", ""),
+		sl("leftmostLeaf", "leftmostLeafStmts", ""),
+		sl("rightmostLeaf", "rightmostLeafStmts", ""),
+		sl("node.leaf", "leafStmts", ""),
+		sl("btree.Cursor", "cursorCtorStmts", ""),
+		Site{Module: mod, Pkg: "xslices", Func: "Index", Name: "indexStmts", Kind: StmtList, Sel: ""},
 	)
 }
